@@ -50,6 +50,12 @@ BASE_CELLS = {
     24: M.OR(M.S(9), M.CELLC(21)),
     25: M.AND(M.CELLC(21), M.S(-9)),
     26: M.AND(M.CELLC(23), M.S(8), M.CELLC(24)),
+    # long cell numbers whose prefixes are cell numbers too and whose
+    # remaining digits are surface numbers
+    12345: M.OR(M.S(7), M.S(-9)),
+    123456: M.AND(M.S(-7), M.S(8)),
+    1234567: M.OR(M.AND(M.S(7), M.S(9)), M.S(-8)),
+    2167: M.AND(M.S(8), M.S(-9)),
 }
 POLICIES = {
     'plain': {},
@@ -240,7 +246,7 @@ def parse_cells(workdir, cards):
 
 def check_batch(case, ctx, out, items):
     '''items: list of (label, my AST, geometry string, tail, material).'''
-    cards = {100 + k: (geom, tail, mat)
+    cards = {5000 + k: (geom, tail, mat)
              for k, (_lab, _ast, geom, tail, mat) in enumerate(items)}
     results = {}
     try:
@@ -261,7 +267,7 @@ def check_batch(case, ctx, out, items):
                         where = os.path.basename(frm.filename) + ':' + frm.name
                 failures[num] = (type(err).__name__, str(err)[:200], where)
     for k, (label, ast, geom, tail, _mat) in enumerate(items):
-        num = 100 + k
+        num = 5000 + k
         out.counters['expressions'] += 1
         if num in failures:
             etype, emsg, where = failures[num]
